@@ -42,6 +42,9 @@ func probeMain(args []string) {
 		}
 		for i, body := range bodies {
 			src := "import T from 0x1\ntransaction {\n  prepare(A1: auth(Storage) &Account, A2: auth(Storage) &Account) {\n" + body + "\n  }\n}\n"
+			if strings.HasPrefix(strings.TrimSpace(body), "import") {
+				src = body
+			}
 			r := w.Tx(src, []common.Address{host.Addr(2), host.Addr(3)}, vm)
 			fmt.Printf("== tx %d vm=%v class=%s uuids=%v\n", i, vm, r.Class, r.UUIDs)
 			for _, l := range r.Logs {
